@@ -70,21 +70,28 @@ ASSUMPTIONS = [
     "invalid bare value may come back quoted or unquoted, a NULL-keyed table entry is dropped",
 ]
 PARTIAL = [
-    "universally quantified class theorems are proved at the TOKEN level for seven classes — C12_partial_packet (any complete packets, then a short one), C12_dup_header_name (normalised comparison: any spelling; against the container or earlier header names; the column is dropped from every packet), C12_no_block_header (whole document: any "
-    "well-formed elements before the first header, any blocks behind), C12_missing_value, C12_unexpected_value, "
-    "C12_dup_itemname (any spelling), C12_empty_loop: any container (block or frame), any well-formed run of items before and behind "
-    "the defect, accept-all: exactly one report with the class's code and the documented content, surroundings unaffected "
-    "(Lemmas/ParserDefect.lean: defect_run + one step lemma per class).  Not proved universally: the line clause at document level "
-    "(shown at step level), the embedding into whole documents / characters (as for C01: the lexical glue), and the remaining classes "
-    "(the combination partial packet after a dropped header name, delimiters, keys, frames, lexical "
-    "classes): for those the statement is kept as C12_class_full (def … : Prop).  Also proved are C12_clean and C12_first_report_is_policy_free (all inputs, all policies: a defect-free "
-    "document is read identically under every policy; the first report of a defective one does not depend on the policy) and, per "
-    "class, kernel-evaluated INSTANCES (one planted defect each: missing value, unexpected value, duplicate scalar name, duplicate "
-    "name in a loop header incl. case variants, partial packet, empty loop / empty loop header, data before the first block header, "
-    "unexpected / missing delimiter, missing / null / unquoted / text-block key, missing value in a table, key token at container "
-    "level, unexpected terminator / end of input in a frame / unterminated frame).  The quantifier over hosts x classes x positions "
-    "is covered by the `defect` correspondence family (41 classes, every position of 11 hand-written + random hosts) with its "
-    "independent oracle.",
+    "TOKEN LEVEL (Props/C12.lean, Props/C12Lex.lean; Lemmas/ParserDefect*.lean): for every class of the parser's recovery table that is decided on "
+    "tokens there is a universally quantified theorem over the integrated parser model — missing value, unexpected value, duplicate item name (any "
+    "spelling), empty loop, null loop, partial packet, duplicate name in a loop header, no block header, invalid item name, invalid / duplicate block "
+    "code, invalid / duplicate frame code, unexpected / missing list and table delimiters, unexpected save_ terminator, the table-key classes (missing "
+    "value, misquoted key, missing key, stray word, null key, unquoted key, `:value` in one word), invalid table index (reported since /repo 8375485), "
+    "the frame classes (unterminated frame = end of input / block header / frame header inside a frame, nesting depth, frames not allowed): any "
+    "container (block or frame at any depth), any well-formed run of elements before and behind the defect, accept-all policy: exactly one report with "
+    "the class's code, content = that of the repaired document, surroundings unaffected; each has an `_at` form that also states WHERE on the "
+    "scanner's walk the report is made (RepAt: after j tokens) and where the run ends (At).  C12_unquoted_key and C12_null_key_word are anchored at the "
+    "scanner state behind TRIM_TOKEN (their hypothesis is what the scanner feeds after the push-back).  Die policy: the result is the first code an "
+    "accept-all parse reports (C03_die_is_first / C12_die_is_first); C12_clean and C12_first_report_is_policy_free hold for all inputs and policies.  "
+    "NOT proved: two or more defects in one document (only the first report is characterised), the combination 'partial packet after a dropped header "
+    "name' (kernel-evaluated instances only), policies that accept some codes and reject others beyond what C03_prefix_determinism gives",
+    "SCANNER LEVEL (Props/C12Scan.lean; Lemmas/LexDefect*.lean, LexReserved.lean): CIF_DISALLOWED_INITIAL_CHAR, CIF_DISALLOWED_CHAR (the character is "
+    "accepted unchanged — the recovery table's 'substitute a replacement character' is not what the code does, its own comment says so; in CIF 1.1 a "
+    "character outside the CIF set that is also non-ASCII is reported TWICE, the theorem states the exact count), CIF_INVALID_CHAR for unpaired "
+    "surrogates (replaced by U+FFFD / `*`), CIF_MISSING_SPACE, CIF_MISSING_ENDQUOTE, CIF_UNCLOSED_TEXT (text field and triple-quoted string), "
+    "CIF_OVERLENGTH_LINE (exactly the terminated lines over 2048 characters, once each, with the line number; tokens and positions as without), "
+    "CIF_RESERVED_WORD (C12_reserved_word: composed with the parser half) — any scanner state in front, any admissible continuation behind, accept-all "
+    "equation and die clause.  NOT proved universally: a defective unit inside a comment, an unpaired lead surrogate elsewhere than before a closing "
+    "quote, several defects in one token, CIF_INVALID_BARE_VALUE / text-prefix classes at scanner level (decided in parse_value / the decoder), "
+    "CIF_UNMAPPED_CHAR and byte-level CIF_INVALID_CHAR (ICU's converter; family parsebytes of C03 observes them)",
     "CHARACTER LEVEL (Props/C12Chars, Lemmas/DefectChars, Lemmas/ParserReach; group gC): for 24 classes — missing value, unexpected "
     "value, dup item name, partial packet, dup header name, empty loop, unexpected delimiter, unexpected save_, null loop, invalid item "
     "name, missing delimiter (list, table), table: missing value / missing key / stray word / null key, no block header, invalid / dup "
